@@ -91,6 +91,10 @@ Fixpoint insert_key (x : file) (l : list file) : list file :=
   | y :: t => if key_le x y then x :: y :: t else y :: insert_key x t
   end.
 Definition sort_key (l : list file) : list file := fold_right insert_key [] l.
+(* Python's sorted() is stable: the files of one coverage (a, b) keep the order of the stream (the directory
+   walk).  insert_key puts x in FRONT of the first y with key x <= key y and fold_right inserts the head of the
+   stream last, so the model sort is stable too (Proofs: sort_key_stable); has_key selects one coverage *)
+Definition has_key (a b : Z) (f : file) : bool := (t0 f =? a) && (t1 f =? b).
 
 (* ------------------------------------------------------------------ the specification *)
 
@@ -228,6 +232,18 @@ Fixpoint group_runs {A} (b : A -> Z) (l : list A) : list (list A) :=
 Definition origin_of (l : list file) : Z := match l with [] => 0 | x :: _ => trunc_to RDay (t0 x) end.
 Definition bundle_f (w : Z) (l : list file) : list (list file) := group_runs (bin_of w (origin_of l)) l.
 
+(* the same, spelled out: with o = midnight of the day of the first file of the sequence (t0 / us_day * us_day),
+   a file starting at t falls into bin number floor((t - o) / w), which is the semi-open interval
+   [o + k w, o + (k + 1) w)  (Proofs: bin_edges_lemma, bundle_f_bins).  What the harness compares with pandas, per
+   bundle: [bin number; left edge; right edge (exclusive); number of files] *)
+Definition bin_lo (w o k : Z) : Z := o + k * w.
+Definition bundle_edges (w : Z) (l : list file) : list (list Z) :=
+  map (fun g => match g with
+                | [] => []
+                | x :: _ => let k := bin_of w (origin_of l) x in
+                            [k; bin_lo w (origin_of l) k; bin_lo w (origin_of l) (k + 1); Z.of_nat (length g)]
+                end) (bundle_f w l).
+
 (* ------------------------------------------------------------------ single-file filesets *)
 
 (* the path has no placeholder: the coverage is `time_coverage` ([datetime.min, datetime.max] by default);
@@ -284,6 +300,34 @@ Definition run_contains (lay : layout) (fs : list file) (ex : list (Z * Z)) (ts 
 Definition run_len (lay : layout) (fs : list file) (ex : list (Z * Z)) : list (list Z) :=
   [[len_model lay fs ex; Z.of_nat (length (filter (selected (everything ex)) fs))]].
 
+(* The same three, evaluated on demand (C01 extension).  Inside the hypotheses of find_sound_complete the theorem
+   says find_model = find_spec, so the harness needs the algorithmic model only OUTSIDE them (or when it asks for
+   the redundant re-check, full = true).  `if` evaluates one branch only under vm_compute, `&&` evaluates both
+   arguments: the directory-pruning part of find_model (calendar arithmetic per file and level) is thus skipped
+   where the specification decides.  A skipped model is printed as [3] / 2 / -2.
+   hc = hyps lay fs, computed once per case.  Last row of a query: the bin edges of the time bundles. *)
+Definition run_query_lazy (full hc : bool) (lay : layout) (fs : list file) (q : query) (bk bw : Z) : list (list Z) :=
+  let sp := find_spec fs q in
+  let hq := wf_queryb q && lookback_okb lay q in
+  let bsz := fun l : list file =>
+    if 0 <? bk then sizes (bundle_n (Z.to_nat bk) l) else if 0 <? bw then sizes (bundle_f bw l) else [] in
+  let md := if full || negb (hc && hq) then Some (find_model lay fs q) else None in
+  [ [b2z hq];
+    match md with Some r => enc (ids r) | None => [3] end;
+    [];
+    map fid sp;
+    bsz sp;
+    match md with Some (Ok l) => bsz l | _ => [] end ]
+  ++ (if 0 <? bw then bundle_edges bw sp else []).
+Definition run_contains_lazy (full hc : bool) (lay : layout) (fs : list file) (ex : list (Z * Z)) (ts : list Z)
+  : list (list Z) :=
+  map (fun t => let hq := lookback_okb lay (instant t ex) && validb t in
+                [if full || negb (hc && hq) then b2z (contains_model lay fs ex t) else 2;
+                 b2z (existsb (selected (instant t ex)) fs); b2z hq]) ts.
+Definition run_len_lazy (full hc : bool) (lay : layout) (fs : list file) (ex : list (Z * Z)) : list (list Z) :=
+  [[if full || negb hc then len_model lay fs ex else -2;
+    Z.of_nat (length (filter (selected (everything ex)) fs))]].
+
 (* ------------------------------------------------------------------ a concrete instance (non-vacuity, refutation of the as-is code)
    layout  {year}/{month}/{day}/{sensor}/ ;  three files, the third one crosses midnight;
    the period is 2018-03-06 01:00 -- 2018-03-06 02:00 *)
@@ -296,3 +340,11 @@ Definition ex_files : list file :=
     mkfile 3 (ex_time 2018 3 6 1) (ex_time 2018 3 6 1) (ex_time 2018 3 6 1) [(0, 2)] true;
     mkfile 4 (ex_time 2018 3 6 2) (ex_time 2018 3 6 3) (ex_time 2018 3 6 2) [(0, 1)] false ].
 Definition ex_query : query := mkq (ex_time 2018 3 6 1) (ex_time 2018 3 6 2) [] [] [].
+
+(* four files, three of them with the same coverage, in the order of the directory walk (sat = 2, 0, 1):
+   the sorted result must keep 10, 11, 12 in that order behind file 13, which starts earlier *)
+Definition ex_ties : list file :=
+  [ mkfile 10 (ex_time 2018 3 5 12) (ex_time 2018 3 5 13) (ex_time 2018 3 5 12) [(0, 2)] false;
+    mkfile 11 (ex_time 2018 3 5 12) (ex_time 2018 3 5 13) (ex_time 2018 3 5 12) [(0, 0)] false;
+    mkfile 13 (ex_time 2018 3 5 11) (ex_time 2018 3 5 13) (ex_time 2018 3 5 11) [(0, 0)] false;
+    mkfile 12 (ex_time 2018 3 5 12) (ex_time 2018 3 5 13) (ex_time 2018 3 5 12) [(0, 1)] false ].
